@@ -125,10 +125,44 @@ func mkAtom(c ssa.Value, pol bool) atom {
 			x = bo.Y
 		}
 		if x != nil {
-			a.nilOf, a.isNil = x, (bo.Op == token.EQL) == pol
+			a.nilOf, a.isNil = justStored(x), (bo.Op == token.EQL) == pol
 		}
 	}
 	return a
+}
+
+// justStored: a load from a local cell (a named result that a defer makes go/ssa spill, a captured variable) that directly
+// follows, in its block, a store into that cell stands for the stored value: `err = f(); if err != nil` tests f's answer.
+func justStored(v ssa.Value) ssa.Value {
+	u, ok := v.(*ssa.UnOp)
+	if !ok || u.Op != token.MUL {
+		return v
+	}
+	al, ok := u.X.(*ssa.Alloc)
+	if !ok {
+		return v
+	}
+	b := u.Block()
+	if b == nil {
+		return v
+	}
+	at := -1
+	for i, in := range b.Instrs {
+		if in == ssa.Instruction(u) {
+			at = i
+		}
+	}
+	for i := at - 1; i >= 0; i-- {
+		switch x := b.Instrs[i].(type) {
+		case *ssa.Store:
+			if x.Addr == ssa.Value(al) {
+				return x.Val
+			}
+		case *ssa.Call, *ssa.Go, *ssa.Defer:
+			return v // something ran in between that may have written the cell through a closure
+		}
+	}
+	return v
 }
 
 // consistent: no value is stated to be both nil and not nil, no condition both true and false.
@@ -168,7 +202,14 @@ func nilLike(v ssa.Value) ssa.Value {
 func definitelyNotNil(v ssa.Value) bool {
 	if call, ok := v.(*ssa.Call); ok {
 		switch CalleeRef(&call.Call) {
-		case "fmt.Errorf", "errors.New", "github.com/pkg/errors.New", "github.com/pkg/errors.Errorf":
+		case "fmt.Errorf", "errors.New", "github.com/pkg/errors.New", "github.com/pkg/errors.Errorf",
+			"google.golang.org/grpc/status.New", "google.golang.org/grpc/status.Newf":
+			return true
+		}
+	}
+	// a package-level error sentinel (var ErrX = errors.New(…)), read where it is returned
+	if u, ok := v.(*ssa.UnOp); ok && u.Op == token.MUL {
+		if g, isG := u.X.(*ssa.Global); isG && (strings.HasPrefix(g.Name(), "Err") || strings.HasPrefix(g.Name(), "err")) && u.Type().String() == "error" {
 			return true
 		}
 	}
